@@ -1203,8 +1203,20 @@ impl Writer {
       // If all_irrelevant_before is still None, then TopicCache has SNs that are
       // less than equal to the requested "unsent_sn". But might not have that exact
       // SN.
+      // A change written for one reader only must never be sent to another one.
+      // Readers matched at the time of writing are pending GAP for it, but a
+      // (non-volatile) late joiner is not.
+      let meant_for_another_reader = self
+        .history_buffer
+        .get_by_sn(unsent_sn)
+        .and_then(|cc| cc.write_options.to_single_reader())
+        .is_some_and(|single_reader| single_reader != reader_guid);
+
       if pending_gaps.contains(&unsent_sn) || all_irrelevant_before.is_some() {
         no_longer_relevant.extend(pending_gaps);
+      } else if meant_for_another_reader {
+        // Send a GAP, or the reader waits for this sequence number forever.
+        no_longer_relevant.insert(unsent_sn);
       } else {
         // Reader not pending gap on unsent_sn. Get the cache change from topic cache
         if let Some(cc) = self.history_buffer.get_by_sn(unsent_sn) {
